@@ -1120,7 +1120,7 @@ class FlowProposal(RejectionProposal):
 
         if discard_nans:
             valid = np.isfinite(log_prob)
-            x, log_prob = x[valid], log_prob[valid]
+            x, log_prob, z = x[valid], log_prob[valid], z[valid]
         x = numpy_array_to_live_points(
             x.astype(config.livepoints.default_float_dtype),
             self.prime_parameters,
